@@ -132,14 +132,22 @@ pub async fn insert_async<'a>(cache: &'a Path, key: &'a str, opts: WriteOpts) ->
     // can splice), and async-std's keeps a record whose write failed and
     // writes it again when the file is dropped, after the error was reported.
     let target = bucket.clone();
-    let appended = crate::async_lib::spawn_blocking(move || -> std::io::Result<()> {
-        let mut buck = OpenOptions::new().create(true).append(true).open(target)?;
-        buck.write_all(out.as_bytes())?;
-        buck.flush()
-    })
+    let appended = crate::async_lib::spawn_blocking(
+        move || -> std::result::Result<(), (&'static str, std::io::Error)> {
+            let mut buck = OpenOptions::new()
+                .create(true)
+                .append(true)
+                .open(target)
+                .map_err(|e| ("create or open index bucket", e))?;
+            buck.write_all(out.as_bytes())
+                .map_err(|e| ("write to index bucket", e))?;
+            buck.flush().map_err(|e| ("flush bucket", e))
+        },
+    )
     .await;
-    crate::async_lib::unwrap_joinhandle_value(appended)
-        .with_context(|| format!("Failed to write to index bucket at {bucket:?}"))?;
+    if let Err((what, e)) = crate::async_lib::unwrap_joinhandle_value(appended) {
+        return Err(e).with_context(|| format!("Failed to {what} at {bucket:?}"));
+    }
     Ok(opts
         .sri
         .or_else(|| "sha1-deadbeef".parse::<Integrity>().ok())
